@@ -100,8 +100,37 @@ def start_at_optimum_specs(ctx, n):
     return specs
 
 
+def move_primitive(ctx, rep):
+    """`_update_incumbent_` (the single routine through which search and poll move the incumbent) must adopt EXACTLY the point and values
+    it is given - also when the new point is extremely close to the old one (fine meshes) - as Inc.searchUpdate / Noisy.move do."""
+    import numpy as np
+    from pybads import BADS
+    rng = ctx.sub_rng("c04move")
+    n = 0
+    for _ in range(40 if ctx.quick else 400):
+        D = rng.randint(1, 4)
+        b = BADS(lambda x: float(np.sum(np.asarray(x) ** 2)), np.full(D, 0.5), np.full(D, -5.0), np.full(D, 5.0), np.full(D, -2.0), np.full(D, 2.0), options={"display": "off"})
+        u_old = np.array([rng.uniform(-2, 2) for _ in range(D)])
+        b.u, b.u_best, b.yval, b.fval, b.fsd = u_old.copy(), u_old.copy(), 3.0, 3.0, 0.0
+        b.optim_state.update({"u": u_old.copy(), "yval": 3.0, "fval": 3.0, "fsd": 0.0})
+        step = rng.choice([1.0, 2.0 ** -10, 2.0 ** -17, 2.0 ** -19, 1e-7, 1e-9])
+        u_new = u_old.copy()
+        u_new[rng.randrange(D)] += step * rng.choice([-1, 1])
+        y, f, sd = rng.uniform(-5, 2.9), rng.uniform(-5, 2.9), rng.choice([0.0, 0.3])
+        b._update_incumbent_(u_new.copy(), y, f, sd)
+        n += 1
+        got = (list(np.ravel(b.u)), list(np.ravel(b.u_best)), b.yval, b.fval, b.fsd, list(np.ravel(b.optim_state["u"])), b.optim_state["yval"], b.optim_state["fval"], b.optim_state["fsd"])
+        want = (list(u_new), list(u_new), y, f, sd, list(u_new), y, f, sd)
+        if got != want:
+            rep.violation("best_evaluated", "bads.py:_update_incumbent_", f"moving the incumbent by {step:g} (D={D}) to a point with value {y} leaves the incumbent at {got[0]} / value {got[2]} instead of {want[0]} / {y}",
+                          {"kind": "move", "D": D, "u_old": [float(v) for v in u_old], "u_new": [float(v) for v in u_new], "y": y, "f": f, "sd": sd})
+            break
+    return n
+
+
 def run(ctx):
     rep = Report()
+    nmove = move_primitive(ctx, rep)
     runlevel.with_extra(ctx, "c04opt", lambda: start_at_optimum_specs(ctx, 6 if ctx.quick else 60))
     stats, samples = run_checks(ctx, rep)
     rep.coverage = {
@@ -117,6 +146,9 @@ def run(ctx):
 def replay(ctx, data):
     rep = Report()
     from .. import tracer
+    if data["case"].get("kind") == "move":
+        move_primitive(ctx, rep)
+        return rep
     ctx._pool = [tracer.run_traced(data["case"]["spec"])]
     run_checks(ctx, rep)
     return rep
